@@ -15,7 +15,7 @@ import (
 func init() {
 	register(&Rule{ID: "R-HINTXFER", Min: 12, Run: ruleHintXfer,
 		Doc: "for every recursive planning call below a node kind, the Func/Grouping/By fields of the by-value hints record are inherited, reset or set exactly as the reference derives them from the path: Func is set by Call/AggregateExpr, reset by BinaryExpr and inherited otherwise; Grouping/By are set by AggregateExpr and reset by every other node kind (the case lists of the pinned extractFuncFromPath/extractGroupsFromPath are re-read from the module source on every run)"})
-	register(&Rule{ID: "R-HINTRANGE", Min: 3, Run: ruleHintRange,
+	register(&Rule{ID: "R-HINTRANGE", Min: 2, Run: ruleHintRange,
 		Doc: "at every GetSelector/GetFilteredSelector call the (mint, maxt) arguments are the very values stored into hints.Start/End before the call, both results of one getTimeRangesForVectorSelector call"})
 	register(&Rule{ID: "R-LINEAR", Min: 15, Run: ruleLinear,
 		Doc: "in plan construction every operator value is consumed at most once on any path (as a constructor argument, a slice element or a return value): the physical plan is a tree and no operator is pulled by two consumers"})
